@@ -201,9 +201,9 @@ def replay_args(desc):
         return f[:10]
     if f[0] != "one":
         return None
-    if len(f) > 19 and f[19] in ("DECODE", "TRUNC", "DAMAGE", "INPLACE"):
-        return f[:21]
-    return f[:19]
+    if len(f) > 18 and f[18] in ("DECODE", "TRUNC", "DAMAGE", "INPLACE"):
+        return f[:20]
+    return f[:18]
 
 
 def report_direct(ctx, exe, bads, faults, family):
@@ -526,7 +526,7 @@ def units(ctx, model, problems):
                 if mm:
                     sk_hex[int(mm.group(1))] = m.group(2)
         elif l.startswith(("BAD ", "FAULT ")):
-            ctx.violation(dict(family="units", harness="c06_units", line=l[:400], argv=None),
+            ctx.violation(dict(family="units", harness="c06_units", line=l[:400], argv=None, units_seed=ctx.seed),
                           what="capacity discipline violated in a direct call of a writer: " + l[:200])
         elif l.startswith("ABANDON"):
             problems.append(dict(kind="units-family-abandoned", line=l))
@@ -621,6 +621,17 @@ def replay(ctx):
         if rc != 0 or "BAD" in out or "FAULT" in out:
             ctx.violation(dict(kind="replay", argv=argv, out=out[-800:]), what="replayed case still fails: " + out.strip()[-200:])
         return
+    if rp.get("family") == "units":
+        uexe = core.build_harness("c06_units", ["c06_units.c"], extra_flags=["-w"])
+        rc, out, err = core.sh([uexe, "units", str(rp.get("units_seed", 1))], timeout=900)
+        badl = [l for l in out.split("\n") if l.startswith(("BAD ", "FAULT ", "ABANDON"))]
+        core.log("replay (unit calls of the writers):", (badl or ["clean"])[0][:300])
+        ctx.count(("replay",), nontrivial=True)
+        ctx.sample(dict(replayed="units", lines=badl[:5]))
+        if badl:
+            ctx.violation(dict(kind="replay", family="units", units_seed=rp.get("units_seed", 1), lines=badl[:10]),
+                          what="replayed unit calls still fail: " + badl[0][:200])
+        return
     if rp.get("hex"):
         model = Model()
         mo = model.run(["I " + rp["hex"].rstrip(".")])
@@ -648,6 +659,13 @@ def run(ctx):
         "128 KiB+-1, 256 KiB+-1 and random; capacities 0..26, every wire-block edge +-2, every raw-model block edge, final size +-4, bound-4..bound+3, "
         "every capacity for small outputs, random. (3) frame inspectors vs model and vs the actual decode on seeded multi-frame inputs "
         "(skippable frames, unknown content size, checksum, small windows), their truncations and 1-bit damages. "
+        "(2a) entries also ZSTD_compress2 with 2 workers (2-3 jobs of 512 KiB; frame size vs the job model) and ZSTD_compress_usingDict; decoder "
+        "capacities above the content size (every capacity n+2..2n+400 for small frames, else aimed at blockSizeMax+32+litSize of the first/last "
+        "blocks) with dst ending at the fence; in-place decoding with ZSTD_DECOMPRESSION_MARGIN. (2b) multi-call ZSTD_compressStream2 / "
+        "ZSTD_decompressStream with output buffers of 1..65536 bytes and input pieces of 1..65536 bytes, every buffer of every call fenced. "
+        "(4) the capacity-checked writers called directly for every capacity around their threshold (ZSTD_noCompressBlock, ZSTD_rleCompressBlock, "
+        "ZSTD_writeLastEmptyBlock, ZSTD_writeFrameHeader, ZSTD_writeSkippableFrame, ZSTD_readSkippableFrame, ZSTD_compressContinue+ZSTD_compressEnd) "
+        "vs the model. "
         "A case is distinct by its signature = (family, input kind, entry point, size bucket, set of wire block types, block count bucket, "
         "parameter-feature vector) resp. (inspector verdict vector); non-trivial = non-empty input.")
     if ctx.replay_file:
@@ -706,6 +724,8 @@ def run(ctx):
         "'nothing is written outside dst[0..c) / read outside src' for the C code is PROT_NONE-fence + canary evidence over the sweep, not a theorem",
         "frame inspectors are modelled for format zstd1 without legacy (v0.1-v0.7) dispatch; block payloads are opaque, regenerated sizes abstract",
         "in-place margin theorem assumes non-expanding blocks (validated on every real output); known finding C06-margin-expanding-blocks otherwise",
+        "multi-threaded job model: jobs cut at the target section size (no rsyncable), 512 KiB chunks; validated on 2-3 job frames of incompressible input",
+        "streaming (ZSTD_compressStream2 / ZSTD_decompressStream with many calls) is covered by the fenced direct oracle only, not by a theorem",
     ]
 
 
